@@ -9,3 +9,111 @@ use std::ops::{BitAnd, BitOr};
 #[derive(Clone, Copy, Debug, Eq, PartialEq, Ord, PartialOrd)]
 pub struct VerifAddr8(pub u8);
 impl_address_ops!(VerifAddr8, u8);
+
+/// A drop-in replacement for `std::sync::atomic::AtomicU64` that reports every atomic operation to an
+/// installable hook: `pre()` is called before the operation (a scheduling point for the harness),
+/// `post()` after it with the kind of operation, the address of the word, the operand and the value
+/// found. Without a hook it behaves exactly like the std type.
+pub mod shim {
+    use std::sync::atomic::{AtomicU64 as StdAtomicU64, Ordering};
+    use std::sync::{Arc, RwLock};
+
+    /// Receiver of atomic-operation notifications.
+    pub trait AtomicHook: Send + Sync {
+        /// Called before every atomic operation.
+        fn pre(&self);
+        /// Called after every atomic operation.
+        fn post(&self, kind: &'static str, addr: usize, arg: u64, old: u64);
+    }
+
+    static HOOK: RwLock<Option<Arc<dyn AtomicHook>>> = RwLock::new(None);
+
+    /// Installs (or removes) the hook.
+    pub fn set_atomic_hook(h: Option<Arc<dyn AtomicHook>>) {
+        *HOOK.write().unwrap() = h;
+    }
+
+    fn hook() -> Option<Arc<dyn AtomicHook>> {
+        HOOK.read().unwrap().clone()
+    }
+
+    /// See the module documentation.
+    #[derive(Debug, Default)]
+    pub struct AtomicU64(StdAtomicU64);
+
+    macro_rules! hooked {
+        ($self:ident, $kind:expr, $arg:expr, $op:expr) => {{
+            let h = hook();
+            if let Some(h) = &h {
+                h.pre();
+            }
+            let old = $op;
+            if let Some(h) = &h {
+                h.post($kind, &$self.0 as *const _ as usize, $arg, old);
+            }
+            old
+        }};
+    }
+
+    #[allow(missing_docs)]
+    impl AtomicU64 {
+        pub fn new(v: u64) -> Self {
+            AtomicU64(StdAtomicU64::new(v))
+        }
+        pub fn load(&self, o: Ordering) -> u64 {
+            hooked!(self, "load", 0, self.0.load(o))
+        }
+        pub fn store(&self, v: u64, o: Ordering) {
+            // the value found is not observable for a plain store; report the operand only
+            let h = hook();
+            if let Some(h) = &h {
+                h.pre();
+            }
+            self.0.store(v, o);
+            if let Some(h) = &h {
+                h.post("store", &self.0 as *const _ as usize, v, 0);
+            }
+        }
+        pub fn swap(&self, v: u64, o: Ordering) -> u64 {
+            hooked!(self, "swap", v, self.0.swap(v, o))
+        }
+        pub fn fetch_or(&self, v: u64, o: Ordering) -> u64 {
+            hooked!(self, "fetch_or", v, self.0.fetch_or(v, o))
+        }
+        pub fn fetch_and(&self, v: u64, o: Ordering) -> u64 {
+            hooked!(self, "fetch_and", v, self.0.fetch_and(v, o))
+        }
+        pub fn fetch_xor(&self, v: u64, o: Ordering) -> u64 {
+            hooked!(self, "fetch_xor", v, self.0.fetch_xor(v, o))
+        }
+        pub fn fetch_add(&self, v: u64, o: Ordering) -> u64 {
+            hooked!(self, "fetch_add", v, self.0.fetch_add(v, o))
+        }
+        pub fn fetch_sub(&self, v: u64, o: Ordering) -> u64 {
+            hooked!(self, "fetch_sub", v, self.0.fetch_sub(v, o))
+        }
+        pub fn compare_exchange(&self, cur: u64, new: u64, s: Ordering, f: Ordering) -> Result<u64, u64> {
+            let h = hook();
+            if let Some(h) = &h {
+                h.pre();
+            }
+            let r = self.0.compare_exchange(cur, new, s, f);
+            if let Some(h) = &h {
+                match r {
+                    Ok(old) => h.post("swap", &self.0 as *const _ as usize, new, old),
+                    Err(old) => h.post("load", &self.0 as *const _ as usize, 0, old),
+                }
+            }
+            r
+        }
+        pub fn compare_exchange_weak(&self, cur: u64, new: u64, s: Ordering, f: Ordering) -> Result<u64, u64> {
+            self.compare_exchange(cur, new, s, f)
+        }
+        pub fn get_mut(&mut self) -> &mut u64 {
+            self.0.get_mut()
+        }
+        pub fn into_inner(self) -> u64 {
+            self.0.into_inner()
+        }
+    }
+}
